@@ -29,6 +29,15 @@ Proof. exact (bit_level_defect_order_indep par sigs wr wr' rd rd' cn cn' bs). Qe
 Theorem C09_defect_same_statements O D D' : design_equiv D D' -> defect_with O D = defect_with O D'.
 Proof. exact (defect_equiv_indep O D D'). Qed.
 
+(* elaboration stops at the first failing check stage; inside one stage (operator checks over several blocks, port rules
+   along several connections) the statement met first may vary, so the admissible answers are the alternatives of that
+   stage: empty exactly when the decision accepts, containing the decision, and independent of statement order *)
+Theorem C09_defect_alts_spec O D :
+  (defect_with O D = None <-> defect_alts O D = []) /\ (forall d, defect_with O D = Some d -> In d (defect_alts O D)).
+Proof. exact (defect_alts_spec O D). Qed.
+Theorem C09_defect_alts_order_indep O D D' : design_equiv D D' -> defect_alts O D = defect_alts O D'.
+Proof. exact (defect_alts_equiv_indep O D D'). Qed.
+
 (* the faithful model of the implementation's checks decides exactly the bit-level property, except in two situations *)
 Theorem C09_elab_model_iff_bit_level D : wf_design_addrs D = true ->
   no_sameblk_sib_overlap D = true -> no_samenet_overlap D = true -> elab_model D = bit_level_defect D.
@@ -70,3 +79,4 @@ Proof. vm_compute. repeat split. Qed.
 Print Assumptions C09_walk_iff_shared_bit. Print Assumptions C09_walk_eq_overlap_in_design.
 Print Assumptions C09_defect_order_indep. Print Assumptions C09_bit_level_defect_order_indep. Print Assumptions C09_defect_same_statements.
 Print Assumptions C09_elab_model_iff_bit_level. Print Assumptions C09_elab_complete_refuted.
+Print Assumptions C09_defect_alts_spec. Print Assumptions C09_defect_alts_order_indep.
